@@ -1,0 +1,46 @@
+//! Verification hooks for the collector (only compiled with the
+//! `verif-hooks` feature).
+//!
+//! H3: a read-only handle-conservation audit over the whole heap.
+//! H2: a scripted heap driver (`heap`) so that the private collector can be
+//! driven from outside the crate against a reachability model. It contains
+//! no oracle.
+
+use std::rc::Rc;
+
+use super::GcContext;
+
+impl GcContext<'_> {
+    /// Counts, for every object in the heap, how many times it is referenced
+    /// by the `GcTrace` of any heap object and compares that with the number
+    /// of weak handles that exist. Returns `(objects, over, under, stale)`:
+    /// objects with more traced references than handles, with fewer, and
+    /// objects that entered the audit with non-zero `visits` or a set `mark`.
+    /// Leaves `visits` at zero; changes nothing else.
+    pub(crate) fn verif_audit(&self) -> (usize, usize, usize, usize) {
+        let inner = self.inner.borrow();
+        let mut stale = 0;
+        for obj in inner.objs.iter() {
+            if obj.visits.get() != 0 || obj.mark.get() {
+                stale += 1;
+            }
+            obj.visits.set(0);
+        }
+        for obj in inner.objs.iter() {
+            obj.value.trace_count();
+        }
+        let mut over = 0;
+        let mut under = 0;
+        for obj in inner.objs.iter() {
+            let visits = obj.visits.get();
+            let weak = Rc::weak_count(obj);
+            if visits > weak {
+                over += 1;
+            } else if visits < weak {
+                under += 1;
+            }
+            obj.visits.set(0);
+        }
+        (inner.objs.len(), over, under, stale)
+    }
+}
